@@ -1,1 +1,339 @@
-/-! C20 - property theorems (declared with their full name `C20.<name>`; helper lemmas go to Lemmas/) -/
+import CohdlVerif.Lemmas.C20Lemmas
+
+/-!
+  C20 - property theorems: AXI4-Lite register maps decode, mask and hand-shake correctly.
+
+  The model (`Model/C20.lean`) is the clock-accurate state machine of the slave built by
+  `Axi4Light.connect_addr_map` (tied per clock to the compiled designs by harness/c20.py).  The theorems
+  quantify over ALL input sequences - every master behaviour (conforming or not), every per-channel timing,
+  every hardware-side input, resets at any time - and over all layouts.
+
+  Only property theorems live here (full name `C20.*`); helper lemmas are in Lemmas/C20Lemmas.lean.
+-/
+open CohdlVerif.C20
+
+namespace CohdlVerif.C20
+
+/-- the slave together with the handshake counters (handshakes since the last reset) -/
+def stepCnt (cfg : Cfg) (p : State × Cnt) (i : In) : State × Cnt := (step cfg p.1 i, cntStep p.1.core i p.2)
+
+/-- every schedule: an arbitrary list of per-clock inputs from power-up -/
+def runCnt (cfg : Cfg) (ins : List In) : State × Cnt := ins.foldl (stepCnt cfg) (init cfg, {})
+
+/-- registers of a layout do not overlap (what `RegisterObject._flatten_` asserts) -/
+def nonOverlapping (regs : List Reg) : Prop :=
+  regs.Pairwise fun a b => a.offset + a.count ≤ b.offset ∨ b.offset + b.count ≤ a.offset
+
+end CohdlVerif.C20
+
+/-! ## address decode -/
+
+/-- the power-of-two fast path of `_contains_addr_` (`addr.msb(rest=log2 count) == offset // count`) is the range
+    test -/
+theorem C20.contains_addr_fastpath (count offset addr : Nat) (hp : isPow2 count = true) (ha : offset % count = 0) :
+    (addr / count = offset / count) ↔ (offset ≤ addr ∧ addr < offset + count) :=
+  div_eq_iff_range count offset addr (isPow2_pos hp) ha
+
+example : isPow2 8 = true ∧ 24 % 8 = 0 ∧ (29 / 8 = 24 / 8) := by decide
+
+/-- the mirror of `_contains_addr_` (fast path with the shift, slow path with the two comparisons) decides
+    exactly `offset ≤ addr < offset + count`, for every register size -/
+theorem C20.contains_addr_exact (offset count addr : Nat) (hc : 0 < count) :
+    containsAddr offset count addr = true ↔ (offset ≤ addr ∧ addr < offset + count) :=
+  containsAddr_iff offset count addr hc
+
+example : containsAddr 52 12 63 = true ∧ containsAddr 52 12 64 = false ∧ containsAddr 48 16 63 = true := by decide
+
+/-- in a non-overlapping layout at most one register contains an address -/
+theorem C20.decode_unique (regs : List Reg) (hno : nonOverlapping regs) (hpos : ∀ r ∈ regs, 0 < r.count) (addr : Nat)
+    (i j : Nat) (hi : i < regs.length) (hj : j < regs.length)
+    (ci : containsAddr regs[i].offset regs[i].count addr = true)
+    (cj : containsAddr regs[j].offset regs[j].count addr = true) : i = j := by
+  have ri := (containsAddr_iff _ _ addr (hpos _ (List.getElem_mem hi))).mp ci
+  have rj := (containsAddr_iff _ _ addr (hpos _ (List.getElem_mem hj))).mp cj
+  unfold inRange at ri rj
+  have hp := List.pairwise_iff_getElem.mp hno
+  rcases Nat.lt_trichotomy i j with h | h | h
+  · have := hp i j hi hj h; omega
+  · exact h
+  · have := hp j i hj hi h; omega
+
+example : nonOverlapping [⟨.memWord, 0, 4, true, true, 0, 0, 0, 0, false, false, false, false, 0⟩,
+                          ⟨.range, 4, 12, true, true, 0, 0, 0, 0, false, false, false, false, 0⟩] := by
+  simp [nonOverlapping]
+
+/-- hence the `for reg in regs: if reg._contains_addr_(addr): ...; break` dispatch selects THE register that
+    contains the address (independent of the order of the list), and nothing for an unmapped address -/
+theorem C20.dispatch_selects_the_addressed_register (p : Reg → Bool) (regs : List Reg) (hno : nonOverlapping regs)
+    (hpos : ∀ r ∈ regs, 0 < r.count) (addr : Nat) :
+    (∀ j (hj : j < regs.length), p regs[j] = true → (regs[j].offset ≤ addr ∧ addr < regs[j].offset + regs[j].count) →
+        selectIdx p regs addr = some j) ∧
+    ((∀ r ∈ regs, p r = true → ¬ (r.offset ≤ addr ∧ addr < r.offset + r.count)) → selectIdx p regs addr = none) := by
+  constructor
+  · intro j hj hpj hin
+    have cj : containsAddr regs[j].offset regs[j].count addr = true :=
+      (containsAddr_iff _ _ addr (hpos _ (List.getElem_mem hj))).mpr hin
+    unfold selectIdx
+    rw [List.findIdx?_eq_some_iff_getElem]
+    refine ⟨hj, by simp [hpj, cj], ?_⟩
+    intro k hk hpk
+    simp only [Bool.and_eq_true] at hpk
+    have := C20.decode_unique regs hno hpos addr k j (by omega) hj hpk.2 cj
+    omega
+  · intro h
+    unfold selectIdx
+    rw [List.findIdx?_eq_none_iff]
+    intro r hr
+    cases hp : p r
+    · simp
+    · have := h r hr hp
+      cases hc : containsAddr r.offset r.count addr
+      · simp
+      · exact absurd ((containsAddr_iff _ _ addr (hpos r hr)).mp hc) this
+
+/-! ## handshakes, for all schedules -/
+
+/-- the invariant that links the channel registers to the handshake counters holds after every input sequence
+    (induction over the clocks; a reset clock re-establishes the initial state) -/
+theorem C20.handshake_invariant (cfg : Cfg) (ins : List In) :
+    WInv (runCnt cfg ins).1.core.wr (runCnt cfg ins).2 ∧ RInv (runCnt cfg ins).1.core.rd (runCnt cfg ins).2 := by
+  unfold runCnt
+  suffices h : ∀ (p : State × Cnt), (WInv p.1.core.wr p.2 ∧ RInv p.1.core.rd p.2) →
+      WInv (ins.foldl (stepCnt cfg) p).1.core.wr (ins.foldl (stepCnt cfg) p).2 ∧
+      RInv (ins.foldl (stepCnt cfg) p).1.core.rd (ins.foldl (stepCnt cfg) p).2 from
+    h _ ⟨by simpa [init] using WInv_init, by simpa [init] using RInv_init⟩
+  induction ins with
+  | nil => intro p h; exact h
+  | cons i ins ih =>
+    intro p h
+    apply ih
+    cases hr : i.rst
+    · simp only [stepCnt, step, hr, Bool.false_eq_true, if_false, coreStep]
+      exact ⟨WInv_step p.1.core i p.2 hr h.1, RInv_step p.1.core i p.2 _ hr h.2⟩
+    · simp only [stepCnt, step, hr, if_true, cntStep, init]
+      exact ⟨WInv_init, RInv_init⟩
+
+/-- BVALID / RVALID (and the read data) are never withdrawn before BREADY / RREADY: after ANY input sequence, a
+    clock without reset in which the response is pending and the master is not ready leaves it pending -/
+theorem C20.valid_held_until_ready (cfg : Cfg) (ins : List In) (i : In) (hr : i.rst = false) :
+    let s := (runCnt cfg ins).1
+    (s.core.wr.bvalid = true → i.bready = false → (step cfg s i).core.wr.bvalid = true) ∧
+    (s.core.rd.rvalid = true → i.rready = false →
+       (step cfg s i).core.rd.rvalid = true ∧ (step cfg s i).core.rd.rdata = s.core.rd.rdata) := by
+  intro s
+  have hinv := C20.handshake_invariant cfg ins
+  constructor
+  · intro hb hnr
+    rcases hinv.1 with ⟨_, _, _, h3, _⟩ | ⟨_, _, _, h3, _⟩ | ⟨hs, _⟩
+    · simp [s, h3] at hb
+    · simp [s, h3] at hb
+    · simp [step, hr, coreStep, wrStep, hs, hnr, hb, s]
+  · intro hv hnr
+    rcases hinv.2 with ⟨_, _, h2, _⟩ | ⟨_, _, h2, _⟩ | ⟨hs, _, h2, _⟩
+    · simp [s, h2] at hv
+    · simp [s, h2] at hv
+    · simp [step, hr, coreStep, rdStep, hs, hnr, s, h2]
+
+/-- every request is answered at most once and every answer belongs to a request: after ANY input sequence the
+    number of B handshakes lies between (completed write requests - 1) and (completed write requests), a write
+    response is pending exactly when one request is unanswered; the same for reads -/
+theorem C20.one_response_per_request (cfg : Cfg) (ins : List In) (s : State) (n : Cnt) (hrun : runCnt cfg ins = (s, n)) :
+    n.b ≤ min n.aw n.w ∧ min n.aw n.w ≤ n.b + 1 ∧ (s.core.wr.bvalid = true ↔ min n.aw n.w = n.b + 1) ∧
+    n.r ≤ n.ar ∧ n.ar ≤ n.r + 1 ∧ (s.core.rd.rvalid = true ↔ n.ar = n.r + 1) := by
+  have hinv := C20.handshake_invariant cfg ins
+  rw [hrun] at hinv
+  simp only at hinv
+  have hw : n.b ≤ min n.aw n.w ∧ min n.aw n.w ≤ n.b + 1 ∧ (s.core.wr.bvalid = true ↔ min n.aw n.w = n.b + 1) := by
+    rcases hinv.1 with ⟨_, _, _, h3, h4, h5⟩ | ⟨_, _, _, h3, h4, h5, h6⟩ | ⟨_, _, _, h3, h4, h5⟩
+    · simp [h3]; omega
+    · cases haL : s.core.wr.aL <;> cases hdL : s.core.wr.dL <;> simp [haL, hdL] at h6 <;>
+        simp [haL, hdL, b2n] at h4 h5 <;> simp [h3] <;> omega
+    · simp [h3]; omega
+  have hr : n.r ≤ n.ar ∧ n.ar ≤ n.r + 1 ∧ (s.core.rd.rvalid = true ↔ n.ar = n.r + 1) := by
+    rcases hinv.2 with ⟨_, _, h2, h3⟩ | ⟨_, _, h2, h3⟩ | ⟨_, _, h2, h3⟩ <;> simp [h2] <;> omega
+  exact ⟨hw.1, hw.2.1, hw.2.2, hr.1, hr.2.1, hr.2.2⟩
+
+/-- no response without a request: a pending B (R) response implies an unanswered completed write (read) request -/
+theorem C20.no_response_without_request (cfg : Cfg) (ins : List In) (s : State) (n : Cnt) (hrun : runCnt cfg ins = (s, n)) :
+    (s.core.wr.bvalid = true → n.b < n.aw ∧ n.b < n.w) ∧ (s.core.rd.rvalid = true → n.r < n.ar) := by
+  have h := C20.one_response_per_request cfg ins s n hrun
+  constructor
+  · intro hb
+    have := h.2.2.1.mp hb
+    omega
+  · intro hv
+    have := h.2.2.2.2.2.mp hv
+    omega
+
+/-- ... and the response does come: the clock in which the second of AW / W arrives raises BVALID, the clock that
+    accepts AR raises RVALID, and a pending response is retired by the first clock with READY -/
+theorem C20.response_follows_request (cfg : Cfg) (ins : List In) (i : In) (hr : i.rst = false) :
+    let s := (runCnt cfg ins).1
+    (wrDone s.core i = true → (step cfg s i).core.wr.bvalid = true) ∧
+    (rdDone s.core i = true → (step cfg s i).core.rd.rvalid = true) ∧
+    (s.core.wr.bvalid = true → i.bready = true → (step cfg s i).core.wr.bvalid = false ∧ (step cfg s i).core.wr.awready = true) ∧
+    (s.core.rd.rvalid = true → i.rready = true → (step cfg s i).core.rd.rvalid = false ∧ (step cfg s i).core.rd.arready = true) := by
+  intro s
+  have hinv := C20.handshake_invariant cfg ins
+  refine ⟨?_, ?_, ?_, ?_⟩
+  · intro hd
+    simp only [wrDone, Bool.and_eq_true, beq_iff_eq, Bool.or_eq_true] at hd
+    obtain ⟨⟨hs, ha⟩, hdd⟩ := hd
+    have ha' : (s.core.wr.aL || i.awvalid) = true := by simpa using ha
+    have hd' : (s.core.wr.dL || i.wvalid) = true := by simpa using hdd
+    simp [step, hr, coreStep, wrStep, hs, ha', hd']
+  · intro hd
+    simp only [rdDone, Bool.and_eq_true, beq_iff_eq] at hd
+    simp [step, hr, coreStep, rdStep, hd.1, hd.2]
+  · intro hb hrdy
+    rcases hinv.1 with ⟨_, _, _, h3, _⟩ | ⟨_, _, _, h3, _⟩ | ⟨hs, _⟩
+    · simp [s, h3] at hb
+    · simp [s, h3] at hb
+    · simp [step, hr, coreStep, wrStep, hs, hrdy, s]
+  · intro hv hrdy
+    rcases hinv.2 with ⟨_, _, h2, _⟩ | ⟨_, _, h2, _⟩ | ⟨hs, _⟩
+    · simp [s, h2] at hv
+    · simp [s, h2] at hv
+    · simp [step, hr, coreStep, rdStep, hs, hrdy, s]
+
+/-- non-vacuity: a schedule with W before AW, a stalled B channel and an overlapping read -/
+example :
+    let cfg : Cfg := { aw := 6, regs := [⟨.memWord, 0, 4, true, true, 0, 0, 0, 0, false, false, false, false, 0⟩] }
+    let ins : List In := [{}, { wvalid := true, wdata := 7, wstrb := 1 }, { arvalid := true }, { awvalid := true }, {}]
+    (runCnt cfg ins).1.core.wr.bvalid = true ∧ (runCnt cfg ins).2 = ⟨1, 1, 0, 1, 0⟩ ∧
+    (runCnt cfg ins).1.bank = [{ mem := 7 }] := by decide
+
+/-! ## data path -/
+
+/-- a write to a `MemWord` updates exactly the strobed bytes: after the clock in which write request completes and
+    the dispatch selects register j, bit b of the word is the written bit if byte b/8 is strobed and the old bit
+    otherwise (for every state, every timing of AW / W, every strobe pattern) -/
+theorem C20.write_updates_exactly_strobed_bytes (cfg : Cfg) (st : State) (i : In) (hr : i.rst = false) (j : Nat) (s : RegSt)
+    (hsel : wrSel cfg st.core i = some j) (hs : st.bank[j]? = some s)
+    (hk : (cfg.regs.getD j dfltReg).kind = .memWord) :
+    ∃ s', (step cfg st i).bank[j]? = some s' ∧
+      ∀ b, b < 32 → s'.mem.testBit b =
+        (if strobed (wrStrb st.core.wr i) b then (wrData st.core.wr i).testBit b else s.mem.testBit b) := by
+  refine ⟨_, bank_step_get cfg st i hr j s hs, ?_⟩
+  intro b hb
+  simp only [hsel, beq_self_eq_true]
+  exact regStep_memWord _ _ _ _ _ _ _ _ _ hk b hb
+
+example :
+    let cfg : Cfg := { aw := 6, regs := [⟨.memWord, 8, 4, true, true, 0, 0, 0, 0, false, false, false, false, 0⟩] }
+    let st : State := { core := { wr := { ws := 1, awready := true, wready := true } }, bank := [{ mem := 0x11223344 }] }
+    let i : In := { awvalid := true, awaddr := 9, wvalid := true, wdata := 0xAABBCCDD, wstrb := 0b0101 }
+    wrSel cfg st.core i = some 0 ∧ (step cfg st i).bank = [{ mem := 0x11BB33DD }] := by decide
+
+/-- a write to a field `Register` (behaviour after fixes/C20-register-write-mask.patch): every `MemField` bit in a
+    strobed byte takes the written bit, every `MemField` bit in a byte that is not strobed keeps its value -/
+theorem C20.register_write_updates_exactly_strobed_bytes (cfg : Cfg) (st : State) (i : In) (hr : i.rst = false) (j : Nat)
+    (s : RegSt) (hfix : cfg.fixed = true)
+    (hsel : wrSel cfg st.core i = some j) (hs : st.bank[j]? = some s)
+    (hk : (cfg.regs.getD j dfltReg).kind = .register) (hdis : disjointMasks (cfg.regs.getD j dfltReg)) :
+    ∃ s', (step cfg st i).bank[j]? = some s' ∧
+      ∀ b, b < 32 → (cfg.regs.getD j dfltReg).memMask.testBit b = true → s'.mem.testBit b =
+        (if strobed (wrStrb st.core.wr i) b then (wrData st.core.wr i).testBit b else s.mem.testBit b) := by
+  refine ⟨_, bank_step_get cfg st i hr j s hs, ?_⟩
+  intro b hb hm
+  simp only [hsel, beq_self_eq_true, hfix]
+  exact regStep_register_mem _ _ _ _ _ _ _ _ hk hdis b hb hm
+
+/-- ... and a `FlagField` is set exactly by a strobed 1 (a flag that is not being cleared by the hardware in the
+    same clock): is_set' = is_set ∨ (strobed ∧ written bit) -/
+theorem C20.register_write_sets_exactly_strobed_flags (cfg : Cfg) (st : State) (i : In) (hr : i.rst = false) (j : Nat)
+    (s : RegSt) (hfix : cfg.fixed = true)
+    (hsel : wrSel cfg st.core i = some j) (hs : st.bank[j]? = some s)
+    (hk : (cfg.regs.getD j dfltReg).kind = .register) (hdis : disjointMasks (cfg.regs.getD j dfltReg)) :
+    ∃ s', (step cfg st i).bank[j]? = some s' ∧
+      ∀ b, b < 32 → (cfg.regs.getD j dfltReg).flagMask.testBit b = true → (i.hw.getD j {}).clr.testBit b = false →
+        (s'.tx ^^^ s'.rx).testBit b =
+          ((s.tx ^^^ s.rx).testBit b || (strobed (wrStrb st.core.wr i) b && (wrData st.core.wr i).testBit b)) := by
+  refine ⟨_, bank_step_get cfg st i hr j s hs, ?_⟩
+  intro b hb hm hc
+  simp only [hsel, beq_self_eq_true, hfix]
+  exact regStep_register_flag _ _ _ _ _ _ _ _ hk hdis b hb hm hc
+
+/-- THE DEFECT of the unpatched code (`Register._basic_write_` never uses `mask`): with `fixed = false` a write
+    with strobe 0001 also overwrites the MemField bits of byte 1 -/
+theorem C20.register_write_respects_strobes_fails_at :
+    let cfg : Cfg := { aw := 6, fixed := false,
+                       regs := [⟨.register, 0, 4, true, true, 0, 0xFFFF, 0, 0, false, false, false, false, 0⟩] }
+    let st : State := { core := { wr := { ws := 1, awready := true, wready := true } }, bank := [{ mem := 0x1234 }] }
+    let i : In := { awvalid := true, awaddr := 0, wvalid := true, wdata := 0xABCD, wstrb := 0b0001 }
+    wrSel cfg st.core i = some 0 ∧ strobed i.wstrb 8 = false ∧
+    ((step cfg st i).bank.getD 0 {}).mem = 0xABCD ∧
+    ((step { cfg with fixed := true } st i).bank.getD 0 {}).mem = 0x12CD := by decide
+
+/-- an access that does not select register j leaves its software-written content untouched: in particular an
+    access to an unmapped address (`wrSel = none`) changes no register, and a write to register k ≠ j does not
+    change register j; reads never change storage -/
+theorem C20.unmapped_access_changes_nothing (cfg : Cfg) (st : State) (i : In) (hr : i.rst = false) (j : Nat) (s : RegSt)
+    (hsel : wrSel cfg st.core i ≠ some j) (hs : st.bank[j]? = some s) :
+    ∃ s', (step cfg st i).bank[j]? = some s' ∧ s'.mem = s.mem ∧ s'.tx = s.tx ∧ s'.aux = s.aux := by
+  refine ⟨_, bank_step_get cfg st i hr j s hs, ?_⟩
+  have : (wrSel cfg st.core i == some j) = false := by simpa using hsel
+  rw [this]
+  exact regStep_not_selected _ _ _ _ _ _ _ _ _
+
+/-- ... where an address outside every writable register selects nothing, whatever the timing -/
+theorem C20.unmapped_selects_nothing (cfg : Cfg) (c : Core) (i : In) (hpos : ∀ r ∈ cfg.regs, 0 < r.count)
+    (hun : ∀ r ∈ cfg.regs, r.writable = true → ¬ (r.offset ≤ wrAddr c.wr i ∧ wrAddr c.wr i < r.offset + r.count)) :
+    wrSel cfg c i = none := by
+  unfold wrSel
+  split
+  · unfold selectIdx
+    rw [List.findIdx?_eq_none_iff]
+    intro r hrm
+    cases hp : r.writable
+    · simp [hp]
+    · have := hun r hrm hp
+      cases hc : containsAddr r.offset r.count (wrAddr c.wr i)
+      · simp
+      · exact absurd ((containsAddr_iff _ _ _ (hpos r hrm)).mp hc) this
+  · rfl
+
+/-- a read returns the addressed register's current value: the clock that accepts AR latches into RDATA the value
+    `_basic_read_` yields in that very clock (current storage, current hardware-driven fields, current flags) for
+    the register the dispatch selects, and `Null` when no readable register is addressed -/
+theorem C20.read_returns_current (cfg : Cfg) (st : State) (i : In) (hr : i.rst = false) (hd : rdDone st.core i = true) :
+    (step cfg st i).core.rd.rvalid = true ∧
+    (step cfg st i).core.rd.rdata =
+      (match selectIdx (·.readable) cfg.regs i.araddr with
+       | none => 0
+       | some j => readResult cfg.aw (cfg.regs.getD j dfltReg) (st.bank.getD j {}) (i.hw.getD j {}) i.araddr) := by
+  have hd' := hd
+  simp only [rdDone, Bool.and_eq_true, beq_iff_eq] at hd'
+  refine ⟨by simp [step, hr, coreStep, rdStep, hd'.1, hd'.2], ?_⟩
+  simp only [step, hr, coreStep, rdStep, hd'.1, hd'.2, rdValue, rdSel, hd, Bool.false_eq_true, if_false, if_true,
+    beq_self_eq_true, Nat.one_ne_zero, beq_iff_eq]
+  split <;> simp_all
+
+/-- notifications occur exactly when the corresponding access completes: the `PushOnNotify.Write` (`.Read`) bit of
+    register j is high after a clock iff that clock completed a write (accepted a read) that selects j, and a
+    `FlagOnNotify` that is not being cleared is set by such a clock -/
+theorem C20.notification_when_access_completes (cfg : Cfg) (st : State) (i : In) (hr : i.rst = false) (j : Nat) (s : RegSt)
+    (hs : st.bank[j]? = some s) (hk : (cfg.regs.getD j dfltReg).kind = .register) :
+    ∃ s', (step cfg st i).bank[j]? = some s' ∧
+      (s'.pW = (decide (wrSel cfg st.core i = some j) && (cfg.regs.getD j dfltReg).pushW)) ∧
+      (s'.pR = (decide (rdSel cfg st.core i = some j) && (cfg.regs.getD j dfltReg).pushR)) ∧
+      (wrSel cfg st.core i = some j → (cfg.regs.getD j dfltReg).flagW = true → (i.hw.getD j {}).nclrW = false →
+         s'.fWtx ≠ s'.fWrx) ∧
+      (rdSel cfg st.core i = some j → (cfg.regs.getD j dfltReg).flagR = true → (i.hw.getD j {}).nclrR = false →
+         s'.fRtx ≠ s'.fRrx) ∧
+      (wrSel cfg st.core i ≠ some j → s'.fWtx = s.fWtx) ∧ (rdSel cfg st.core i ≠ some j → s'.fRtx = s.fRtx) := by
+  refine ⟨_, bank_step_get cfg st i hr j s hs, ?_⟩
+  have h := regStep_notify cfg.fixed cfg.aw (cfg.regs.getD j dfltReg) s (i.hw.getD j {})
+    (rdSel cfg st.core i == some j) (wrSel cfg st.core i == some j)
+    (wrAddr st.core.wr i) (wrData st.core.wr i) (wrStrb st.core.wr i) hk
+  simp only [beq_iff_eq, beq_eq_false_iff_ne, ne_eq] at h
+  obtain ⟨h1, h2, h3, h4, h5, h6⟩ := h
+  refine ⟨?_, ?_, h3, h4, h5, h6⟩
+  · rw [h1]; cases hw : (wrSel cfg st.core i == some j) <;> simp_all
+  · rw [h2]; cases hw : (rdSel cfg st.core i == some j) <;> simp_all
+
+example :
+    let cfg : Cfg := { aw := 6, regs := [⟨.register, 4, 4, true, true, 0, 0xFF, 0, 0, true, true, false, true, 0⟩] }
+    let st : State := { core := { wr := { ws := 1, awready := false, wready := true, aL := true, addr := 4 } }, bank := [{}] }
+    let i : In := { wvalid := true, wdata := 0x55, wstrb := 0 }
+    wrSel cfg st.core i = some 0 ∧ (step cfg st i).bank = [{ pW := true, fWtx := true }] := by decide
